@@ -5,6 +5,8 @@ package roverif
 // Families (all Props: C04):
 //   C04.stage     one modelled catalogue stage x boundary parameters x script x ending; oracle: trace is a
 //                 member of the model's admissible set                            clause model:<stage>
+//   C04.enum      one modelled stage with drawn parameters x every script over {1,2,3} of length 0..4 x the
+//                 three endings (Expand: 363 scenarios per draw); same oracle and clause as C04.stage
 //   C04.chain     random chains of 2..4 modelled stages; oracle: composition of the models
 //                 clause chain - or model:<stage> when the divergence is localised in one stage (the
 //                 prefixes of the chain are run separately and each stage is judged on the input it
@@ -184,6 +186,7 @@ func runC04Pipeline(e *Env) {
 	if sc.Family == "C04.chain" {
 		minSt, maxSt = 1, 8
 	}
+	// (C04.stage and C04.enum: exactly one stage)
 	if !c04ValidPipeline(sc, minSt, maxSt) {
 		// only reachable through a hand-edited replay file: the generators and the shrinker filter these
 		e.Probe("model-declined")
@@ -261,7 +264,7 @@ func init() {
 	Register(&Family{
 		Name:   "C04.stage",
 		Props:  []string{"C04"},
-		Weight: 8,
+		Weight: 160,
 		Gen: func(g *Gen) *Scn {
 			names := c04Modelled(nil)
 			for {
@@ -281,7 +284,7 @@ func init() {
 	Register(&Family{
 		Name:   "C04.chain",
 		Props:  []string{"C04"},
-		Weight: 6,
+		Weight: 120,
 		Gen: func(g *Gen) *Scn {
 			names := c04Modelled(nil)
 			for {
@@ -299,6 +302,47 @@ func init() {
 			}
 		},
 		Valid: func(sc *Scn) bool { return c04ValidPipeline(sc, 1, 8) },
+		Run:   runC04Pipeline,
+	})
+	// exhaustive sub-mode: one stage with drawn parameters x EVERY script over {1,2,3} of length 0..4
+	// x the three endings (363 scripts per drawn stage). One draw costs 363 runs: the weight is chosen
+	// so that the enumeration takes roughly 40% of the runs (the other weights are scaled accordingly).
+	Register(&Family{
+		Name:   "C04.enum",
+		Props:  []string{"C04"},
+		Weight: 1,
+		Gen: func(g *Gen) *Scn {
+			names := c04Modelled(nil)
+			sc := &Scn{Family: "C04.enum"}
+			sc.Sources = []SrcSpec{{Mode: g.Pick("sync", "sync", "sync", "async"), Script: []Step{{K: "C"}}}}
+			addStage(g, sc, names[g.Intn(len(names))], g.Range(0, 4), "sync")
+			sc.SetInt("code", g.Intn(4))
+			sc.SetInt("seqmode", 1)
+			return sc
+		},
+		Expand: func(sc *Scn) []*Scn {
+			var out []*Scn
+			code := sc.Int("code", 0)
+			var rec func(prefix []Step)
+			rec = func(prefix []Step) {
+				for _, end := range [][]Step{{{K: "C"}}, {{K: "E", V: code}}, nil} {
+					c := cloneScn(sc)
+					c.Sources[0].Script = append(append([]Step(nil), prefix...), end...)
+					if c04ValidPipeline(c, 1, 1) {
+						out = append(out, c)
+					}
+				}
+				if len(prefix) == 4 {
+					return
+				}
+				for v := 1; v <= 3; v++ {
+					rec(append(append([]Step(nil), prefix...), Step{K: "N", V: v}))
+				}
+			}
+			rec(nil)
+			return out
+		},
+		Valid: func(sc *Scn) bool { return c04ValidPipeline(sc, 1, 1) },
 		Run:   runC04Pipeline,
 	})
 }
@@ -377,7 +421,7 @@ func c04MapEnc(m map[int]int) int {
 	return v
 }
 
-type cx = context.Context
+type c04Ctx = context.Context
 
 var c04VarFams = []*c04VarFam{
 	{name: "Map", mk: func(k int, lg *c04Log, _ []int) []c04Variant {
@@ -385,8 +429,8 @@ var c04VarFams = []*c04VarFam{
 		return []c04Variant{
 			c04V("Map", ro.Map(f)),
 			c04V("MapI", ro.MapI(func(x int, _ int64) int { return f(x) })),
-			c04V("MapWithContext", ro.MapWithContext(func(c cx, x int) (cx, int) { return c, f(x) })),
-			c04V("MapIWithContext", ro.MapIWithContext(func(c cx, x int, _ int64) (cx, int) { return c, f(x) })),
+			c04V("MapWithContext", ro.MapWithContext(func(c c04Ctx, x int) (c04Ctx, int) { return c, f(x) })),
+			c04V("MapIWithContext", ro.MapIWithContext(func(c c04Ctx, x int, _ int64) (c04Ctx, int) { return c, f(x) })),
 		}
 	}},
 	{name: "MapI", mk: func(k int, lg *c04Log, _ []int) []c04Variant {
@@ -394,9 +438,9 @@ var c04VarFams = []*c04VarFam{
 		var n1, n2 int64
 		return []c04Variant{
 			c04V("MapI", ro.MapI(f)),
-			c04V("MapIWithContext", ro.MapIWithContext(func(c cx, x int, i int64) (cx, int) { return c, f(x, i) })),
+			c04V("MapIWithContext", ro.MapIWithContext(func(c c04Ctx, x int, i int64) (c04Ctx, int) { return c, f(x, i) })),
 			c04V("Map+counter", ro.Map(func(x int) int { n1++; return f(x, n1-1) })),
-			c04V("MapWithContext+counter", ro.MapWithContext(func(c cx, x int) (cx, int) { n2++; return c, f(x, n2-1) })),
+			c04V("MapWithContext+counter", ro.MapWithContext(func(c c04Ctx, x int) (c04Ctx, int) { n2++; return c, f(x, n2-1) })),
 		}
 	}},
 	{name: "Filter", mk: func(k int, lg *c04Log, _ []int) []c04Variant {
@@ -404,8 +448,8 @@ var c04VarFams = []*c04VarFam{
 		return []c04Variant{
 			c04V("Filter", ro.Filter(f)),
 			c04V("FilterI", ro.FilterI(func(x int, _ int64) bool { return f(x) })),
-			c04V("FilterWithContext", ro.FilterWithContext(func(c cx, x int) (cx, bool) { return c, f(x) })),
-			c04V("FilterIWithContext", ro.FilterIWithContext(func(c cx, x int, _ int64) (cx, bool) { return c, f(x) })),
+			c04V("FilterWithContext", ro.FilterWithContext(func(c c04Ctx, x int) (c04Ctx, bool) { return c, f(x) })),
+			c04V("FilterIWithContext", ro.FilterIWithContext(func(c c04Ctx, x int, _ int64) (c04Ctx, bool) { return c, f(x) })),
 		}
 	}},
 	{name: "FilterI", mk: func(k int, lg *c04Log, _ []int) []c04Variant {
@@ -413,9 +457,9 @@ var c04VarFams = []*c04VarFam{
 		var n1, n2 int64
 		return []c04Variant{
 			c04V("FilterI", ro.FilterI(f)),
-			c04V("FilterIWithContext", ro.FilterIWithContext(func(c cx, x int, i int64) (cx, bool) { return c, f(x, i) })),
+			c04V("FilterIWithContext", ro.FilterIWithContext(func(c c04Ctx, x int, i int64) (c04Ctx, bool) { return c, f(x, i) })),
 			c04V("Filter+counter", ro.Filter(func(x int) bool { n1++; return f(x, n1-1) })),
-			c04V("FilterWithContext+counter", ro.FilterWithContext(func(c cx, x int) (cx, bool) { n2++; return c, f(x, n2-1) })),
+			c04V("FilterWithContext+counter", ro.FilterWithContext(func(c c04Ctx, x int) (c04Ctx, bool) { n2++; return c, f(x, n2-1) })),
 		}
 	}},
 	{name: "Scan", mk: func(k int, lg *c04Log, _ []int) []c04Variant {
@@ -423,8 +467,8 @@ var c04VarFams = []*c04VarFam{
 		return []c04Variant{
 			c04V("Scan", ro.Scan(f, k)),
 			c04V("ScanI", ro.ScanI(func(acc, x int, _ int64) int { return f(acc, x) }, k)),
-			c04V("ScanWithContext", ro.ScanWithContext(func(c cx, acc, x int) (cx, int) { return c, f(acc, x) }, k)),
-			c04V("ScanIWithContext", ro.ScanIWithContext(func(c cx, acc, x int, _ int64) (cx, int) { return c, f(acc, x) }, k)),
+			c04V("ScanWithContext", ro.ScanWithContext(func(c c04Ctx, acc, x int) (c04Ctx, int) { return c, f(acc, x) }, k)),
+			c04V("ScanIWithContext", ro.ScanIWithContext(func(c c04Ctx, acc, x int, _ int64) (c04Ctx, int) { return c, f(acc, x) }, k)),
 		}
 	}},
 	{name: "ScanI", mk: func(k int, lg *c04Log, _ []int) []c04Variant {
@@ -432,7 +476,7 @@ var c04VarFams = []*c04VarFam{
 		var n1 int64
 		return []c04Variant{
 			c04V("ScanI", ro.ScanI(f, k)),
-			c04V("ScanIWithContext", ro.ScanIWithContext(func(c cx, acc, x int, i int64) (cx, int) { return c, f(acc, x, i) }, k)),
+			c04V("ScanIWithContext", ro.ScanIWithContext(func(c c04Ctx, acc, x int, i int64) (c04Ctx, int) { return c, f(acc, x, i) }, k)),
 			c04V("Scan+counter", ro.Scan(func(acc, x int) int { n1++; return f(acc, x, n1-1) }, k)),
 		}
 	}},
@@ -441,8 +485,8 @@ var c04VarFams = []*c04VarFam{
 		return []c04Variant{
 			c04V("Reduce", ro.Reduce(f, k)),
 			c04V("ReduceI", ro.ReduceI(func(acc, x int, _ int64) int { return f(acc, x) }, k)),
-			c04V("ReduceWithContext", ro.ReduceWithContext(func(c cx, acc, x int) (cx, int) { return c, f(acc, x) }, k)),
-			c04V("ReduceIWithContext", ro.ReduceIWithContext(func(c cx, acc, x int, _ int64) (cx, int) { return c, f(acc, x) }, k)),
+			c04V("ReduceWithContext", ro.ReduceWithContext(func(c c04Ctx, acc, x int) (c04Ctx, int) { return c, f(acc, x) }, k)),
+			c04V("ReduceIWithContext", ro.ReduceIWithContext(func(c c04Ctx, acc, x int, _ int64) (c04Ctx, int) { return c, f(acc, x) }, k)),
 		}
 	}},
 	{name: "ReduceI", mk: func(k int, lg *c04Log, _ []int) []c04Variant {
@@ -450,7 +494,7 @@ var c04VarFams = []*c04VarFam{
 		var n1 int64
 		return []c04Variant{
 			c04V("ReduceI", ro.ReduceI(f, k)),
-			c04V("ReduceIWithContext", ro.ReduceIWithContext(func(c cx, acc, x int, i int64) (cx, int) { return c, f(acc, x, i) }, k)),
+			c04V("ReduceIWithContext", ro.ReduceIWithContext(func(c c04Ctx, acc, x int, i int64) (c04Ctx, int) { return c, f(acc, x, i) }, k)),
 			c04V("Reduce+counter", ro.Reduce(func(acc, x int) int { n1++; return f(acc, x, n1-1) }, k)),
 		}
 	}},
@@ -459,8 +503,8 @@ var c04VarFams = []*c04VarFam{
 		return []c04Variant{
 			c04V("TakeWhile", ro.TakeWhile(f)),
 			c04V("TakeWhileI", ro.TakeWhileI(func(x int, _ int64) bool { return f(x) })),
-			c04V("TakeWhileWithContext", ro.TakeWhileWithContext(func(c cx, x int) (cx, bool) { return c, f(x) })),
-			c04V("TakeWhileIWithContext", ro.TakeWhileIWithContext(func(c cx, x int, _ int64) (cx, bool) { return c, f(x) })),
+			c04V("TakeWhileWithContext", ro.TakeWhileWithContext(func(c c04Ctx, x int) (c04Ctx, bool) { return c, f(x) })),
+			c04V("TakeWhileIWithContext", ro.TakeWhileIWithContext(func(c c04Ctx, x int, _ int64) (c04Ctx, bool) { return c, f(x) })),
 		}
 	}},
 	{name: "TakeWhileI", mk: func(k int, lg *c04Log, _ []int) []c04Variant {
@@ -468,7 +512,7 @@ var c04VarFams = []*c04VarFam{
 		var n1 int64
 		return []c04Variant{
 			c04V("TakeWhileI", ro.TakeWhileI(f)),
-			c04V("TakeWhileIWithContext", ro.TakeWhileIWithContext(func(c cx, x int, i int64) (cx, bool) { return c, f(x, i) })),
+			c04V("TakeWhileIWithContext", ro.TakeWhileIWithContext(func(c c04Ctx, x int, i int64) (c04Ctx, bool) { return c, f(x, i) })),
 			c04V("TakeWhile+counter", ro.TakeWhile(func(x int) bool { n1++; return f(x, n1-1) })),
 		}
 	}},
@@ -477,15 +521,15 @@ var c04VarFams = []*c04VarFam{
 		return []c04Variant{
 			c04V("SkipWhile", ro.SkipWhile(f)),
 			c04V("SkipWhileI", ro.SkipWhileI(func(x int, _ int64) bool { return f(x) })),
-			c04V("SkipWhileWithContext", ro.SkipWhileWithContext(func(c cx, x int) (cx, bool) { return c, f(x) })),
-			c04V("SkipWhileIWithContext", ro.SkipWhileIWithContext(func(c cx, x int, _ int64) (cx, bool) { return c, f(x) })),
+			c04V("SkipWhileWithContext", ro.SkipWhileWithContext(func(c c04Ctx, x int) (c04Ctx, bool) { return c, f(x) })),
+			c04V("SkipWhileIWithContext", ro.SkipWhileIWithContext(func(c c04Ctx, x int, _ int64) (c04Ctx, bool) { return c, f(x) })),
 		}
 	}},
 	{name: "SkipWhileI", mk: func(k int, lg *c04Log, _ []int) []c04Variant {
 		f := func(x int, i int64) bool { return int(i) < k }
 		return []c04Variant{
 			c04V("SkipWhileI", ro.SkipWhileI(f)),
-			c04V("SkipWhileIWithContext", ro.SkipWhileIWithContext(func(c cx, x int, i int64) (cx, bool) { return c, f(x, i) })),
+			c04V("SkipWhileIWithContext", ro.SkipWhileIWithContext(func(c c04Ctx, x int, i int64) (c04Ctx, bool) { return c, f(x, i) })),
 			c04V("Skip", ro.Skip[int](int64(k))),
 		}
 	}},
@@ -494,8 +538,8 @@ var c04VarFams = []*c04VarFam{
 		return []c04Variant{
 			c04V("First", ro.First(f)),
 			c04V("FirstI", ro.FirstI(func(x int, _ int64) bool { return f(x) })),
-			c04V("FirstWithContext", ro.FirstWithContext(func(c cx, x int) (cx, bool) { return c, f(x) })),
-			c04V("FirstIWithContext", ro.FirstIWithContext(func(c cx, x int, _ int64) (cx, bool) { return c, f(x) })),
+			c04V("FirstWithContext", ro.FirstWithContext(func(c c04Ctx, x int) (c04Ctx, bool) { return c, f(x) })),
+			c04V("FirstIWithContext", ro.FirstIWithContext(func(c c04Ctx, x int, _ int64) (c04Ctx, bool) { return c, f(x) })),
 		}
 	}},
 	{name: "FirstI", mk: func(k int, lg *c04Log, _ []int) []c04Variant {
@@ -503,7 +547,7 @@ var c04VarFams = []*c04VarFam{
 		var n1 int64
 		return []c04Variant{
 			c04V("FirstI", ro.FirstI(f)),
-			c04V("FirstIWithContext", ro.FirstIWithContext(func(c cx, x int, i int64) (cx, bool) { return c, f(x, i) })),
+			c04V("FirstIWithContext", ro.FirstIWithContext(func(c c04Ctx, x int, i int64) (c04Ctx, bool) { return c, f(x, i) })),
 			c04V("First+counter", ro.First(func(x int) bool { n1++; return f(x, n1-1) })),
 		}
 	}},
@@ -512,8 +556,8 @@ var c04VarFams = []*c04VarFam{
 		return []c04Variant{
 			c04V("Last", ro.Last(f)),
 			c04V("LastI", ro.LastI(func(x int, _ int64) bool { return f(x) })),
-			c04V("LastWithContext", ro.LastWithContext(func(c cx, x int) (cx, bool) { return c, f(x) })),
-			c04V("LastIWithContext", ro.LastIWithContext(func(c cx, x int, _ int64) (cx, bool) { return c, f(x) })),
+			c04V("LastWithContext", ro.LastWithContext(func(c c04Ctx, x int) (c04Ctx, bool) { return c, f(x) })),
+			c04V("LastIWithContext", ro.LastIWithContext(func(c c04Ctx, x int, _ int64) (c04Ctx, bool) { return c, f(x) })),
 		}
 	}},
 	{name: "LastI", mk: func(k int, lg *c04Log, _ []int) []c04Variant {
@@ -521,7 +565,7 @@ var c04VarFams = []*c04VarFam{
 		var n1 int64
 		return []c04Variant{
 			c04V("LastI", ro.LastI(f)),
-			c04V("LastIWithContext", ro.LastIWithContext(func(c cx, x int, i int64) (cx, bool) { return c, f(x, i) })),
+			c04V("LastIWithContext", ro.LastIWithContext(func(c c04Ctx, x int, i int64) (c04Ctx, bool) { return c, f(x, i) })),
 			c04V("Last+counter", ro.Last(func(x int) bool { n1++; return f(x, n1-1) })),
 		}
 	}},
@@ -533,10 +577,10 @@ var c04VarFams = []*c04VarFam{
 				return c04B2I(ro.AllI(func(x int, _ int64) bool { return f(x) })(s))
 			}),
 			c04V("AllWithContext", func(s ro.Observable[int]) ro.Observable[int] {
-				return c04B2I(ro.AllWithContext(func(c cx, x int) bool { return f(x) })(s))
+				return c04B2I(ro.AllWithContext(func(c c04Ctx, x int) bool { return f(x) })(s))
 			}),
 			c04V("AllIWithContext", func(s ro.Observable[int]) ro.Observable[int] {
-				return c04B2I(ro.AllIWithContext(func(c cx, x int, _ int64) bool { return f(x) })(s))
+				return c04B2I(ro.AllIWithContext(func(c c04Ctx, x int, _ int64) bool { return f(x) })(s))
 			}),
 		}
 	}},
@@ -545,7 +589,7 @@ var c04VarFams = []*c04VarFam{
 		return []c04Variant{
 			c04V("AllI", func(s ro.Observable[int]) ro.Observable[int] { return c04B2I(ro.AllI(f)(s)) }),
 			c04V("AllIWithContext", func(s ro.Observable[int]) ro.Observable[int] {
-				return c04B2I(ro.AllIWithContext(func(c cx, x int, i int64) bool { return f(x, i) })(s))
+				return c04B2I(ro.AllIWithContext(func(c c04Ctx, x int, i int64) bool { return f(x, i) })(s))
 			}),
 		}
 	}},
@@ -557,10 +601,10 @@ var c04VarFams = []*c04VarFam{
 				return c04B2I(ro.ContainsI(func(x int, _ int64) bool { return f(x) })(s))
 			}),
 			c04V("ContainsWithContext", func(s ro.Observable[int]) ro.Observable[int] {
-				return c04B2I(ro.ContainsWithContext(func(c cx, x int) bool { return f(x) })(s))
+				return c04B2I(ro.ContainsWithContext(func(c c04Ctx, x int) bool { return f(x) })(s))
 			}),
 			c04V("ContainsIWithContext", func(s ro.Observable[int]) ro.Observable[int] {
-				return c04B2I(ro.ContainsIWithContext(func(c cx, x int, _ int64) bool { return f(x) })(s))
+				return c04B2I(ro.ContainsIWithContext(func(c c04Ctx, x int, _ int64) bool { return f(x) })(s))
 			}),
 		}
 	}},
@@ -570,7 +614,7 @@ var c04VarFams = []*c04VarFam{
 		return []c04Variant{
 			c04V("ContainsI", func(s ro.Observable[int]) ro.Observable[int] { return c04B2I(ro.ContainsI(f)(s)) }),
 			c04V("ContainsIWithContext", func(s ro.Observable[int]) ro.Observable[int] {
-				return c04B2I(ro.ContainsIWithContext(func(c cx, x int, i int64) bool { return f(x, i) })(s))
+				return c04B2I(ro.ContainsIWithContext(func(c c04Ctx, x int, i int64) bool { return f(x, i) })(s))
 			}),
 			c04V("Contains+counter", func(s ro.Observable[int]) ro.Observable[int] {
 				return c04B2I(ro.Contains(func(x int) bool { n1++; return f(x, n1-1) })(s))
@@ -582,8 +626,8 @@ var c04VarFams = []*c04VarFam{
 		return []c04Variant{
 			c04V("Find", ro.Find(f)),
 			c04V("FindI", ro.FindI(func(x int, _ int64) bool { return f(x) })),
-			c04V("FindWithContext", ro.FindWithContext(func(c cx, x int) bool { return f(x) })),
-			c04V("FindIWithContext", ro.FindIWithContext(func(c cx, x int, _ int64) bool { return f(x) })),
+			c04V("FindWithContext", ro.FindWithContext(func(c c04Ctx, x int) bool { return f(x) })),
+			c04V("FindIWithContext", ro.FindIWithContext(func(c c04Ctx, x int, _ int64) bool { return f(x) })),
 		}
 	}},
 	{name: "FindI", mk: func(k int, lg *c04Log, _ []int) []c04Variant {
@@ -591,7 +635,7 @@ var c04VarFams = []*c04VarFam{
 		var n1 int64
 		return []c04Variant{
 			c04V("FindI", ro.FindI(f)),
-			c04V("FindIWithContext", ro.FindIWithContext(func(c cx, x int, i int64) bool { return f(x, i) })),
+			c04V("FindIWithContext", ro.FindIWithContext(func(c c04Ctx, x int, i int64) bool { return f(x, i) })),
 			c04V("Find+counter", ro.Find(func(x int) bool { n1++; return f(x, n1-1) })),
 			c04V("ElementAt-ish", func(s ro.Observable[int]) ro.Observable[int] {
 				return ro.Take[int](1)(ro.Skip[int](int64(k))(s))
@@ -608,8 +652,8 @@ var c04VarFams = []*c04VarFam{
 		return []c04Variant{
 			c04V("MapErr", ro.MapErr(f)),
 			c04V("MapErrI", ro.MapErrI(func(x int, _ int64) (int, error) { return f(x) })),
-			c04V("MapErrWithContext", ro.MapErrWithContext(func(c cx, x int) (int, cx, error) { r, err := f(x); return r, c, err })),
-			c04V("MapErrIWithContext", ro.MapErrIWithContext(func(c cx, x int, _ int64) (int, cx, error) { r, err := f(x); return r, c, err })),
+			c04V("MapErrWithContext", ro.MapErrWithContext(func(c c04Ctx, x int) (int, c04Ctx, error) { r, err := f(x); return r, c, err })),
+			c04V("MapErrIWithContext", ro.MapErrIWithContext(func(c c04Ctx, x int, _ int64) (int, c04Ctx, error) { r, err := f(x); return r, c, err })),
 		}
 	}},
 	{name: "MapErrI", mk: func(k int, lg *c04Log, _ []int) []c04Variant {
@@ -622,7 +666,7 @@ var c04VarFams = []*c04VarFam{
 		var n1 int64
 		return []c04Variant{
 			c04V("MapErrI", ro.MapErrI(f)),
-			c04V("MapErrIWithContext", ro.MapErrIWithContext(func(c cx, x int, i int64) (int, cx, error) { r, err := f(x, i); return r, c, err })),
+			c04V("MapErrIWithContext", ro.MapErrIWithContext(func(c c04Ctx, x int, i int64) (int, c04Ctx, error) { r, err := f(x, i); return r, c, err })),
 			c04V("MapErr+counter", ro.MapErr(func(x int) (int, error) { n1++; return f(x, n1-1) })),
 		}
 	}},
@@ -631,8 +675,8 @@ var c04VarFams = []*c04VarFam{
 		return []c04Variant{
 			c04V("FlatMap", ro.FlatMap(f)),
 			c04V("FlatMapI", ro.FlatMapI(func(x int, _ int64) ro.Observable[int] { return f(x) })),
-			c04V("FlatMapWithContext", ro.FlatMapWithContext(func(c cx, x int) ro.Observable[int] { return f(x) })),
-			c04V("FlatMapIWithContext", ro.FlatMapIWithContext(func(c cx, x int, _ int64) ro.Observable[int] { return f(x) })),
+			c04V("FlatMapWithContext", ro.FlatMapWithContext(func(c c04Ctx, x int) ro.Observable[int] { return f(x) })),
+			c04V("FlatMapIWithContext", ro.FlatMapIWithContext(func(c c04Ctx, x int, _ int64) ro.Observable[int] { return f(x) })),
 			// synchronous inner observables: merging and concatenating coincide
 			c04V("MergeMap", ro.MergeMap(f)),
 		}
@@ -642,7 +686,7 @@ var c04VarFams = []*c04VarFam{
 		var n1 int64
 		return []c04Variant{
 			c04V("FlatMapI", ro.FlatMapI(f)),
-			c04V("FlatMapIWithContext", ro.FlatMapIWithContext(func(c cx, x int, i int64) ro.Observable[int] { return f(x, i) })),
+			c04V("FlatMapIWithContext", ro.FlatMapIWithContext(func(c c04Ctx, x int, i int64) ro.Observable[int] { return f(x, i) })),
 			c04V("FlatMap+counter", ro.FlatMap(func(x int) ro.Observable[int] { n1++; return f(x, n1-1) })),
 		}
 	}},
@@ -651,8 +695,8 @@ var c04VarFams = []*c04VarFam{
 		return []c04Variant{
 			c04V("MergeMap", ro.MergeMap(f)),
 			c04V("MergeMapI", ro.MergeMapI(func(x int, _ int64) ro.Observable[int] { return f(x) })),
-			c04V("MergeMapWithContext", ro.MergeMapWithContext(func(c cx, x int) ro.Observable[int] { return f(x) })),
-			c04V("MergeMapIWithContext", ro.MergeMapIWithContext(func(c cx, x int, _ int64) (cx, ro.Observable[int]) { return c, f(x) })),
+			c04V("MergeMapWithContext", ro.MergeMapWithContext(func(c c04Ctx, x int) ro.Observable[int] { return f(x) })),
+			c04V("MergeMapIWithContext", ro.MergeMapIWithContext(func(c c04Ctx, x int, _ int64) (c04Ctx, ro.Observable[int]) { return c, f(x) })),
 		}
 	}},
 	{name: "MergeMapI", mk: func(k int, lg *c04Log, _ []int) []c04Variant {
@@ -660,7 +704,7 @@ var c04VarFams = []*c04VarFam{
 		var n1 int64
 		return []c04Variant{
 			c04V("MergeMapI", ro.MergeMapI(f)),
-			c04V("MergeMapIWithContext", ro.MergeMapIWithContext(func(c cx, x int, i int64) (cx, ro.Observable[int]) { return c, f(x, i) })),
+			c04V("MergeMapIWithContext", ro.MergeMapIWithContext(func(c c04Ctx, x int, i int64) (c04Ctx, ro.Observable[int]) { return c, f(x, i) })),
 			c04V("MergeMap+counter", ro.MergeMap(func(x int) ro.Observable[int] { n1++; return f(x, n1-1) })),
 		}
 	}},
@@ -668,7 +712,7 @@ var c04VarFams = []*c04VarFam{
 		f := func(x int) int { return x % (k + 1) }
 		vs := []c04Variant{
 			c04V("DistinctBy", ro.DistinctBy(f)),
-			c04V("DistinctByWithContext", ro.DistinctByWithContext(func(c cx, x int) (cx, int) { return c, f(x) })),
+			c04V("DistinctByWithContext", ro.DistinctByWithContext(func(c c04Ctx, x int) (c04Ctx, int) { return c, f(x) })),
 		}
 		if k == 3 { // x % 4 is the identity on the alphabet {1,2,3}
 			vs = append(vs, c04V("Distinct", ro.Distinct[int]()))
@@ -684,10 +728,10 @@ var c04VarFams = []*c04VarFam{
 				return mg(ro.GroupByI(func(x int, _ int64) int { return f(x) })(s))
 			}),
 			c04V("GroupByWithContext", func(s ro.Observable[int]) ro.Observable[int] {
-				return mg(ro.GroupByWithContext(func(c cx, x int) (cx, int) { return c, f(x) })(s))
+				return mg(ro.GroupByWithContext(func(c c04Ctx, x int) (c04Ctx, int) { return c, f(x) })(s))
 			}),
 			c04V("GroupByIWithContext", func(s ro.Observable[int]) ro.Observable[int] {
-				return mg(ro.GroupByIWithContext(func(c cx, x int, _ int64) (cx, int) { return c, f(x) })(s))
+				return mg(ro.GroupByIWithContext(func(c c04Ctx, x int, _ int64) (c04Ctx, int) { return c, f(x) })(s))
 			}),
 		}
 	}},
@@ -700,20 +744,20 @@ var c04VarFams = []*c04VarFam{
 				return enc(ro.ToMapI(func(x int, _ int64) (int, int) { return f(x) })(s))
 			}),
 			c04V("ToMapWithContext", func(s ro.Observable[int]) ro.Observable[int] {
-				return enc(ro.ToMapWithContext(func(c cx, x int) (int, int) { return f(x) })(s))
+				return enc(ro.ToMapWithContext(func(c c04Ctx, x int) (int, int) { return f(x) })(s))
 			}),
 			c04V("ToMapIWithContext", func(s ro.Observable[int]) ro.Observable[int] {
-				return enc(ro.ToMapIWithContext(func(c cx, x int, _ int64) (int, int) { return f(x) })(s))
+				return enc(ro.ToMapIWithContext(func(c c04Ctx, x int, _ int64) (int, int) { return f(x) })(s))
 			}),
 		}
 	}},
 	{name: "Tap", effects: func(in []N) []string { return c04TapLog(in, "nec") }, mk: func(k int, lg *c04Log, _ []int) []c04Variant {
 		n := func(x int) { lg.add(fmt.Sprintf("n%d", x)) }
-		er := func(err error) { lg.add("e:"+errCode(err)) }
+		er := func(err error) { lg.add("e:" + errCode(err)) }
 		c := func() { lg.add("c") }
-		nc := func(_ cx, x int) { n(x) }
-		ec := func(_ cx, err error) { er(err) }
-		cc := func(_ cx) { c() }
+		nc := func(_ c04Ctx, x int) { n(x) }
+		ec := func(_ c04Ctx, err error) { er(err) }
+		cc := func(_ c04Ctx) { c() }
 		return []c04Variant{
 			c04V("Tap", ro.Tap(n, er, c)),
 			c04V("Do", ro.Do(n, er, c)),
@@ -723,7 +767,7 @@ var c04VarFams = []*c04VarFam{
 	}},
 	{name: "TapOnNext", effects: func(in []N) []string { return c04TapLog(in, "n") }, mk: func(k int, lg *c04Log, _ []int) []c04Variant {
 		n := func(x int) { lg.add(fmt.Sprintf("n%d", x)) }
-		nc := func(_ cx, x int) { n(x) }
+		nc := func(_ c04Ctx, x int) { n(x) }
 		return []c04Variant{
 			c04V("TapOnNext", ro.TapOnNext(n)),
 			c04V("DoOnNext", ro.DoOnNext(n)),
@@ -733,8 +777,8 @@ var c04VarFams = []*c04VarFam{
 		}
 	}},
 	{name: "TapOnError", effects: func(in []N) []string { return c04TapLog(in, "e") }, mk: func(k int, lg *c04Log, _ []int) []c04Variant {
-		er := func(err error) { lg.add("e:"+errCode(err)) }
-		ec := func(_ cx, err error) { er(err) }
+		er := func(err error) { lg.add("e:" + errCode(err)) }
+		ec := func(_ c04Ctx, err error) { er(err) }
 		return []c04Variant{
 			c04V("TapOnError", ro.TapOnError[int](er)),
 			c04V("DoOnError", ro.DoOnError[int](er)),
@@ -745,7 +789,7 @@ var c04VarFams = []*c04VarFam{
 	}},
 	{name: "TapOnComplete", effects: func(in []N) []string { return c04TapLog(in, "c") }, mk: func(k int, lg *c04Log, _ []int) []c04Variant {
 		c := func() { lg.add("c") }
-		cc := func(_ cx) { c() }
+		cc := func(_ c04Ctx) { c() }
 		return []c04Variant{
 			c04V("TapOnComplete", ro.TapOnComplete[int](c)),
 			c04V("DoOnComplete", ro.DoOnComplete[int](c)),
@@ -756,7 +800,7 @@ var c04VarFams = []*c04VarFam{
 	}},
 	{name: "TapOnSubscribe", effects: func(in []N) []string { return []string{"s@0"} }, mk: func(k int, lg *c04Log, _ []int) []c04Variant {
 		s := func() { lg.add("s") }
-		sc := func(_ cx) { s() }
+		sc := func(_ c04Ctx) { s() }
 		return []c04Variant{
 			c04V("TapOnSubscribe", ro.TapOnSubscribe[int](s)),
 			c04V("DoOnSubscribe", ro.DoOnSubscribe[int](s)),
@@ -783,10 +827,10 @@ var c04VarFams = []*c04VarFam{
 		}
 	}},
 	{name: "ContextMap", mk: func(k int, lg *c04Log, _ []int) []c04Variant {
-		f := func(c cx) cx { return context.WithValue(c, ctxKey("c04"), k) }
+		f := func(c c04Ctx) c04Ctx { return context.WithValue(c, ctxKey("c04"), k) }
 		return []c04Variant{
 			c04V("ContextMap", ro.ContextMap[int](f)),
-			c04V("ContextMapI", ro.ContextMapI[int](func(c cx, _ int64) cx { return f(c) })),
+			c04V("ContextMapI", ro.ContextMapI[int](func(c c04Ctx, _ int64) c04Ctx { return f(c) })),
 			c04V("ContextWithValue", ro.ContextWithValue[int](ctxKey("c04"), k)),
 		}
 	}},
@@ -795,8 +839,8 @@ var c04VarFams = []*c04VarFam{
 		return []c04Variant{
 			c04V("DoWhile", ro.DoWhile[int](func() bool { n1++; return n1 <= k })),
 			c04V("DoWhileI", ro.DoWhileI[int](func(_ int64) bool { n2++; return n2 <= k })),
-			c04V("DoWhileWithContext", ro.DoWhileWithContext[int](func(c cx) (cx, bool) { n3++; return c, n3 <= k })),
-			c04V("DoWhileIWithContext", ro.DoWhileIWithContext[int](func(c cx, _ int64) (cx, bool) { n4++; return c, n4 <= k })),
+			c04V("DoWhileWithContext", ro.DoWhileWithContext[int](func(c c04Ctx) (c04Ctx, bool) { n3++; return c, n3 <= k })),
+			c04V("DoWhileIWithContext", ro.DoWhileIWithContext[int](func(c c04Ctx, _ int64) (c04Ctx, bool) { n4++; return c, n4 <= k })),
 		}
 	}},
 	{name: "While", mk: func(k int, lg *c04Log, _ []int) []c04Variant {
@@ -804,8 +848,8 @@ var c04VarFams = []*c04VarFam{
 		return []c04Variant{
 			c04V("While", ro.While[int](func() bool { n1++; return n1 <= k })),
 			c04V("WhileI", ro.WhileI[int](func(_ int64) bool { n2++; return n2 <= k })),
-			c04V("WhileWithContext", ro.WhileWithContext[int](func(c cx) (cx, bool) { n3++; return c, n3 <= k })),
-			c04V("WhileIWithContext", ro.WhileIWithContext[int](func(c cx, _ int64) (cx, bool) { n4++; return c, n4 <= k })),
+			c04V("WhileWithContext", ro.WhileWithContext[int](func(c c04Ctx) (c04Ctx, bool) { n3++; return c, n3 <= k })),
+			c04V("WhileIWithContext", ro.WhileIWithContext[int](func(c c04Ctx, _ int64) (c04Ctx, bool) { n4++; return c, n4 <= k })),
 		}
 	}},
 	{name: "Head", loose: true, mk: func(k int, lg *c04Log, _ []int) []c04Variant {
@@ -970,7 +1014,7 @@ func init() {
 	Register(&Family{
 		Name:   "C04.variants",
 		Props:  []string{"C04"},
-		Weight: 4,
+		Weight: 80,
 		Gen: func(g *Gen) *Scn {
 			fam := c04VarFams[g.Intn(len(c04VarFams))]
 			sc := &Scn{Family: "C04.variants", Sub: fam.name}
@@ -1201,7 +1245,7 @@ func init() {
 	Register(&Family{
 		Name:   "C04.pipe",
 		Props:  []string{"C04"},
-		Weight: 3,
+		Weight: 60,
 		Gen: func(g *Gen) *Scn {
 			sc := &Scn{Family: "C04.pipe", Sub: "int"}
 			script := c04Script(g)
@@ -1415,7 +1459,7 @@ func c04ObserveT[T any](e *Env, o ro.Observable[T]) (*c04TRec[T], bool) {
 // ---------------------------------------------------------------------------------------------
 // C04.aliasing
 
-var c04AliasKinds = []string{"BufferWithCount", "ToSlice", "Pairwise", "Zip", "ZipAll", "CombineLatestAll", "BufferWhen", "ToSlice|RepeatWith"}
+var c04AliasKinds = []string{"BufferWithCount", "ToSlice", "Pairwise", "Zip", "ZipAll", "CombineLatestAll", "BufferWhen", "ToSlice|RepeatWith", "ToMap|RepeatWith"}
 
 func c04AliasSources(kind string) int {
 	switch kind {
@@ -1434,6 +1478,23 @@ func runC04Aliasing(e *Env) {
 	n := sc.Int("n", 2)
 	if n < 1 {
 		n = 1
+	}
+	if sc.Sub == "ToMap|RepeatWith" {
+		// map-valued output: every repetition must deliver a map of its own
+		calls := 0 // the keys differ from one repetition to the next: a shared map would grow after delivery
+		om := ro.RepeatWith[map[int]int](int64(n))(ro.ToMapI(func(x int, i int64) (int, int) { calls++; return calls, x })(srcs[0]))
+		r, ok := c04ObserveT(e, om)
+		if !ok {
+			return
+		}
+		for i, v := range r.vals {
+			if now := fmt.Sprintf("%v", v); now != r.snaps[i] {
+				c04Violate(e, "aliasing", fmt.Sprintf("%s(n=%d) over [%s]: value #%d was %s when it was delivered and is %s at the end of the run (trace %s)",
+					sc.Sub, n, traceN(scriptToN(sc.Sources[0].Script)), i, r.snaps[i], now, r.trace()))
+				return
+			}
+		}
+		return
 	}
 	var o ro.Observable[[]int]
 	switch sc.Sub {
@@ -1538,7 +1599,7 @@ func init() {
 	Register(&Family{
 		Name:   "C04.aliasing",
 		Props:  []string{"C04"},
-		Weight: 2,
+		Weight: 40,
 		Gen: func(g *Gen) *Scn {
 			kind := c04AliasKinds[g.Intn(len(c04AliasKinds))]
 			sc := &Scn{Family: "C04.aliasing", Sub: kind}
@@ -1791,7 +1852,7 @@ func init() {
 	Register(&Family{
 		Name:   "C04.creation",
 		Props:  []string{"C04"},
-		Weight: 1,
+		Weight: 20,
 		Gen: func(g *Gen) *Scn {
 			sc := &Scn{Family: "C04.creation", Sub: c04CreationOps[g.Intn(len(c04CreationOps))]}
 			// the value list (empty and singleton included) travels as the N steps of a script
@@ -1802,10 +1863,10 @@ func init() {
 			}
 			sc.Sources = []SrcSpec{{Mode: "sync", Script: script}}
 			// all parameters are stored non-negative (the generic shrinker decrements them)
-			sc.SetInt("a", g.Range(0, 5))                    // a = v-2  in -2..3
-			sc.SetInt("b", g.Range(0, 5))                    // b = v-2
+			sc.SetInt("a", g.Range(0, 5))                     // a = v-2  in -2..3
+			sc.SetInt("b", g.Range(0, 5))                     // b = v-2
 			sc.SetInt("s4", g.PickInt(0, 4, 5, 6, 8, 10, 12)) // step = (v-4)/4 in {-1, 0, .25, .5, 1, 1.5, 2}
-			sc.SetInt("count", g.Range(0, 4))                // count = v-1 in -1..3
+			sc.SetInt("count", g.Range(0, 4))                 // count = v-1 in -1..3
 			sc.SetInt("code", g.Intn(4))
 			if g.Bool(0.3) {
 				sc.SetInt("b", sc.Int("a", 0)) // a = b
@@ -1888,7 +1949,7 @@ func init() {
 	Register(&Family{
 		Name:   "C04.zero",
 		Props:  []string{"C04"},
-		Weight: 1,
+		Weight: 10,
 		Gen: func(g *Gen) *Scn {
 			sc := &Scn{Family: "C04.zero", Sub: c04ZeroOps[g.Intn(len(c04ZeroOps))]}
 			sc.Sources = []SrcSpec{{Mode: g.Pick("sync", "sync", "async"), Script: c04Script(g)}}
@@ -1914,7 +1975,7 @@ var c04MathOps = []string{"Round", "Floor", "Ceil", "Trunc", "Abs", "FloorWithPr
 
 func c04ExactPrecision(x float64, places int, ceil bool) float64 {
 	r := new(big.Rat).SetFloat64(x)
-	pow := new(big.Rat).SetInt(new(big.Int).Exp(big.NewInt(10), big.NewInt(int64(abs(places))), nil))
+	pow := new(big.Rat).SetInt(new(big.Int).Exp(big.NewInt(10), big.NewInt(int64(c04Abs(places))), nil))
 	if places >= 0 {
 		r.Mul(r, pow)
 	} else {
@@ -1937,7 +1998,7 @@ func c04ExactPrecision(x float64, places int, ceil bool) float64 {
 	return f
 }
 
-func abs(x int) int {
+func c04Abs(x int) int {
 	if x < 0 {
 		return -x
 	}
@@ -2045,7 +2106,7 @@ func init() {
 	Register(&Family{
 		Name:   "C04.math",
 		Props:  []string{"C04"},
-		Weight: 1,
+		Weight: 20,
 		Gen: func(g *Gen) *Scn {
 			sc := &Scn{Family: "C04.math", Sub: c04MathOps[g.Intn(len(c04MathOps))]}
 			n := g.PickInt(0, 1, 2, 3, 4, 5)
